@@ -232,18 +232,37 @@ def binExpFrom (num den : Nat) : Nat → Int → Int
     else if n < 2 ^ 52 * d && -1074 < e then binExpFrom num den fuel (e - 1)
     else e
 
-/-- bit pattern (without sign) of the binary64 nearest to `num/den > 0`, ties to even -/
-def nearestBits (num den : Nat) : Nat :=
+/-- `e ≥ -1074`, `num/(den·2^e) < 2^53`, and `2^52 ≤ num/(den·2^e)` unless `e = -1074` -/
+def binExpOk (num den : Nat) (e : Int) : Bool :=
+  decide (-1074 ≤ e) && decide ((scaleBin num den e).1 < 2 ^ 53 * (scaleBin num den e).2) &&
+    (decide (2 ^ 52 * (scaleBin num den e).2 ≤ (scaleBin num den e).1) || decide (e = -1074))
+
+/-- the same exponent by plain downward search (never needed; it makes `binExp` correct by
+construction whatever the estimate) -/
+def binExpDown (num den : Nat) : Nat → Int → Int
+  | 0, e => e
+  | fuel + 1, e =>
+    if e ≤ -1074 then -1074
+    else if 2 ^ 52 * (scaleBin num den e).2 ≤ (scaleBin num den e).1 then e
+    else binExpDown num den fuel (e - 1)
+
+/-- binary exponent of the unit in the last place of the binary64 nearest to `num/den` -/
+def binExp (num den : Nat) : Int :=
   let e0 : Int := (Nat.log2 num : Int) - (Nat.log2 den : Int) - 52
   let e := binExpFrom num den 6 (if e0 < -1074 then -1074 else e0)
-  let (n, d) := scaleBin num den e
-  let m := roundHalfEven n d
-  let (m, e) := if m = 2 ^ 53 then (2 ^ 52, e + 1) else (m, e)
-  if m < 2 ^ 52 then m                       -- subnormal (e = -1074) or zero
-  else
-    let biased := e + 1075
-    if 2047 ≤ biased then 2047 * 2 ^ 52      -- overflow: infinity
-    else biased.toNat * 2 ^ 52 + (m - 2 ^ 52)
+  if binExpOk num den e then e else binExpDown num den 2100 972
+
+/-- exponent and fraction fields for significand `m ≤ 2^53 - 1` at exponent `e` -/
+def packBits (m : Nat) (e : Int) : Nat :=
+  if m < 2 ^ 52 then m                         -- subnormal (e = -1074) or zero
+  else if 2047 ≤ e + 1075 then 2047 * 2 ^ 52   -- overflow: infinity
+  else (e + 1075).toNat * 2 ^ 52 + (m - 2 ^ 52)
+
+/-- bit pattern (without sign) of the binary64 nearest to `num/den > 0`, ties to even -/
+def nearestBits (num den : Nat) : Nat :=
+  let e := binExp num den
+  let m := roundHalfEven (scaleBin num den e).1 (scaleBin num den e).2
+  if m = 2 ^ 53 then packBits (2 ^ 52) (e + 1) else packBits m e
 
 def isDigit (c : Char) : Bool := '0' ≤ c && c ≤ '9'
 
